@@ -18,6 +18,16 @@
                                  along the CALL chain instead of the lexical chain: a constant bound inside a function
                                  and captured by a closure that escaped is invisible to the check when the closure is
                                  called from somewhere else, and a plain = or := through the closure rebinds it
+     FailureLeavesFrame = TRUE : (a seeded change) an input that FAILS inside a call - its deadline expires, it is cancelled, the
+                                 depth limit is hit, an ordinary error - leaves the session in the frame of that call: the later inputs
+                                 of the session are evaluated there.  A frame of a function the session defined still ends at
+                                 the session's globals (the constant and the checks are where they were); a frame of one of the
+                                 library's own grol-written functions (keys, log2, printf ..: defined when the extensions are
+                                 initialised) hangs off another root, where K is not bound: K no longer evaluates, `K = v` binds
+                                 a new K there
+     InPlaceWhenNoRoom = TRUE  : (a seeded change) index assignment writes into the existing storage when the memory budget
+                                 (GOMEMLIMIT) does not hold a second copy of the container: only a HUGE container under a TIGHT
+                                 budget shows it
    The constant lives either at top level or inside a function whose closures escaped (home); in the second case every
    attempt is made through one of those closures, called from the top level, from a function or from a loop.
    ConstantsStable: K evaluates to the value it was bound to until an explicit del(K).
@@ -26,7 +36,7 @@
    kind, with registers on and off.                                                        *)
 EXTENDS Integers, Sequences, TLC, Json, GrolPrims
 
-CONSTANTS MaxOps, WriteBeforeCheck, RegisterShadows, CheckWalksCallStack, EmitOn
+CONSTANTS MaxOps, MaxTightOps, WriteBeforeCheck, RegisterShadows, CheckWalksCallStack, FailureLeavesFrame, InPlaceWhenNoRoom, EmitOn
 
 Kinds  == {"assign", "define", "incr", "predecr", "index-assign", "del-entry", "loop-var", "list-loop-var",
            "param", "nested-assign", "nested-define", "func-name", "equal-reassign",
@@ -37,38 +47,59 @@ Scopes == {"top", "function", "loop"}
 
 ClosureKinds == {"assign", "define", "incr", "predecr", "index-assign", "del-entry", "nested-assign", "equal-reassign"}
 
+Hows   == {"deadline", "cancel", "depth", "error"}
+Wheres == {"user", "lib", "lib-in-user"}
+
 VARIABLES ver,      \* version of the value K evaluates to at top level
           home,     \* "top": K is a global; "closure": K is bound inside a function and reached through escaped closures
           seenIn,   \* a body in which K evaluated to something else was run (shadowing)
           large,    \* K holds a large container (chosen at Init)
+          mem,      \* "free": no memory budget; "tight": K is huge and the budget left does not hold a second copy of it
+          frame,    \* where the session's inputs are evaluated: "session" (its globals), or the frame a failed input left
+                    \* behind: "user" (ends at the session's globals), "lib" (ends at the library's root)
           hist
-vars == <<ver, home, seenIn, large, hist>>
+vars == <<ver, home, seenIn, large, mem, frame, hist>>
 
-Init == ver = 0 /\ home \in {"top", "closure"} /\ seenIn = FALSE /\ large \in BOOLEAN /\ hist = <<>>
+Init == /\ ver = 0 /\ home \in {"top", "closure"} /\ seenIn = FALSE /\ large \in BOOLEAN /\ hist = <<>>
+        /\ mem \in {"free", "tight"} /\ (mem = "tight" => large /\ home = "top")
+        /\ frame = "session"
+
+Budget == IF mem = "tight" THEN MaxTightOps ELSE MaxOps
 
 Attempt(k, sc) ==
-  /\ Len(hist) < MaxOps
+  /\ Len(hist) < Budget
   /\ home = "closure" => k \in ClosureKinds
   /\ ver' = IF k \in {"index-assign", "del-entry"} /\ large /\ WriteBeforeCheck THEN ver + 1
+            ELSE IF k = "index-assign" /\ mem = "tight" /\ InPlaceWhenNoRoom THEN ver + 1
+            ELSE IF frame = "lib" /\ k \in {"assign", "define", "nested-assign", "nested-define"} THEN ver + 1   \* binds a K of that frame
             ELSE IF home = "closure" /\ k \in {"assign", "define"} /\ CheckWalksCallStack THEN ver + 1
             ELSE ver
   /\ seenIn' = (seenIn \/ (k \in {"param", "loop-var", "loop-from-own-value", "fresh-loop-constant", "fresh-param-constant"} /\ RegisterShadows))
-  /\ UNCHANGED <<large, home>>
+  /\ UNCHANGED <<large, home, mem, frame>>
   /\ hist' = Append(hist, <<k, sc>>)
+
+\* an input that fails inside a call (nothing in it names K)
+Fail(how, wh) ==
+  /\ Len(hist) < Budget /\ mem = "free"
+  /\ frame' = IF ~FailureLeavesFrame THEN "session" ELSE IF wh = "user" THEN "user" ELSE "lib"
+  /\ UNCHANGED <<ver, seenIn, large, home, mem>>
+  /\ hist' = Append(hist, <<StrCat("fail-", how), wh>>)
 
 \* the one legitimate way: delete explicitly, then bind again
 DelAndRebind ==
-  /\ Len(hist) < MaxOps /\ home = "top"
-  /\ ver' = 0 /\ seenIn' = FALSE /\ UNCHANGED <<large, home>>      \* version 0 again: "the value it was (re)bound to"
+  /\ Len(hist) < Budget /\ home = "top" /\ frame = "session" /\ mem = "free"
+  /\ ver' = 0 /\ seenIn' = FALSE /\ UNCHANGED <<large, home, mem, frame>>      \* version 0 again: "the value it was (re)bound to"
   /\ hist' = Append(hist, <<"del-rebind", "top">>)
 
-Emit == EmitOn => EmitLine(ToJson([h |-> hist', home |-> home]))
+Emit == EmitOn => EmitLine(ToJson([h |-> hist', home |-> home, mem |-> mem]))
 
 Next ==
   /\ \/ \E k \in Kinds, sc \in Scopes : Attempt(k, sc)
+     \/ \E how \in Hows, wh \in Wheres : Fail(how, wh)
      \/ DelAndRebind
   /\ Emit
 
 Spec == Init /\ [][Next]_vars
-ConstantsStable == ver = 0 /\ ~seenIn
+\* K evaluates (the inputs run where K is in scope) to the value it was bound to, in every body too
+ConstantsStable == ver = 0 /\ ~seenIn /\ frame \in {"session", "user"}
 =============================================================================
